@@ -266,6 +266,7 @@ impl Ctx<'_> {
         let len = unsafe { ((e + 8) as *const u32).read_unaligned() };
         let bid = unsafe { ((e + 12) as *const u16).read_unaligned() };
         r.head = r.head.wrapping_add(1);
+        simcore::quarantine::pbuf_set_head(crate::PBUF_TAG + group as u64, r.head);
         crate::probe("provided-buffer-selected");
         if self.held.iter().any(|(a, l, _)| *a < addr + len as usize && addr < *a + *l) {
             simcore::try_with(|d| {
@@ -506,8 +507,11 @@ impl KOp {
         if r > 0 {
             cx.digest = digest(unsafe { std::slice::from_raw_parts(ptr as *const u8, r as usize) });
         }
-        if r <= 0 {
-            // an error or end of file does not consume the selected buffer (the kernel recycles it, no F_BUFFER)
+        // io_uring/rw.c completes a read through kiocb_done(), which hands the selected buffer over
+        // (F_BUFFER) also when 0 bytes were read; io_uring/net.c recycles the buffer of a receive that got
+        // nothing (no F_BUFFER)
+        let read_family = matches!(self.opcode, OP_READ | OP_READ_MULTISHOT);
+        if r < 0 || (r == 0 && !read_family) {
             if flags & CQE_F_BUFFER != 0 {
                 if let Some(pr) = cx.pbufs.get_mut(&self.buf_group) {
                     pr.head = pr.head.wrapping_sub(1);
